@@ -173,7 +173,19 @@ class Broker:
 
         # Update _margin requirements. Bid-ask spread is implicitly paid
         # here and now.
-        self._last_marking_to_market_price[trade.contract] = trade.acq_price
+        # Only the traded quantity pays the spread: the position held before
+        # the trade keeps the price at which it was last marked to market and
+        # the trade itself is settled against that price.
+        try:
+            last_price = self._last_marking_to_market_price[trade.contract]
+        except KeyError:
+            self._last_marking_to_market_price[trade.contract] = trade.acq_price
+        else:
+            if trade.contract.margin_requirement != 0:
+                self._holdings_margins[trade.contract] += (
+                    trade.quantity * trade.contract.multiplier
+                    * (last_price - trade.acq_price)
+                )
         self.marking_to_market(trade.contract)
 
     def marking_to_market(
